@@ -71,6 +71,8 @@ pub enum Case {
     Convert { payload: u16, clone_first: bool },
     Madvise { pages: u8, off: u8, len: u8, advice: u8 },
     Wait { code: u8 },
+    /// Operations on buffers from a ReadBufPool.
+    PoolIo { dgram: bool, peek: bool, len: u16, pool_log2: u8, file_off: Option<u16> },
 }
 
 struct Real {
@@ -219,6 +221,7 @@ impl Property for C13 {
             2 => (1u16..5000, any::<bool>()).prop_map(|(payload, clone_first)| Case::Convert { payload, clone_first }),
             2 => (1u8..6, 0u8..6, 0u8..7, 0u8..5).prop_map(|(pages, off, len, advice)| Case::Madvise { pages, off, len, advice }),
             1 => any::<u8>().prop_map(|code| Case::Wait { code }),
+            3 => (any::<bool>(), any::<bool>(), 1u16..4000, 0u8..3, proptest::option::weighted(0.5, 0u16..6000)).prop_map(|(dgram, peek, len, pool_log2, file_off)| Case::PoolIo { dgram, peek, len, pool_log2, file_off }),
         ]
         .boxed()
     }
@@ -250,6 +253,7 @@ impl Property for C13 {
             Case::Convert { payload, clone_first } => run_convert(&mut real, *payload, *clone_first, &mut classes),
             Case::Madvise { pages, off, len, advice } => run_madvise(&mut real, *pages, *off, *len, *advice, &mut classes),
             Case::Wait { code } => run_wait(&mut real, *code, &mut classes),
+            Case::PoolIo { dgram, peek, len, pool_log2, file_off } => run_pool_io(&mut real, *dgram, *peek, *len, *pool_log2, *file_off, &mut classes),
         };
         if let Err(e) = res {
             if let Some(msg) = e.strip_prefix("infra:") {
@@ -283,6 +287,7 @@ impl Property for C13 {
             Case::Convert { .. } => "convert",
             Case::Madvise { .. } => "madvise",
             Case::Wait { .. } => "wait",
+            Case::PoolIo { .. } => "pool-io",
         };
         ctx.class(fam);
         classes.sort();
@@ -1735,5 +1740,73 @@ fn run_wait(real: &mut Real, code: u8, classes: &mut Vec<&'static str>) -> Resul
         return Err(format!("value:wait_on: a10 reports pid {} (child {}), code {:?}, status {got_status}; waitid(2) on the twin reports si_code {want_code}, si_status {want_status}", a.pid(), ca.id(), a.code()));
     }
     classes.push("waitid");
+    Ok(())
+}
+
+fn run_pool_io(real: &mut Real, dgram: bool, peek: bool, len: u16, pool_log2: u8, file_off: Option<u16>, classes: &mut Vec<&'static str>) -> Result<(), String> {
+    let pool = a10::io::ReadBufPool::new(real.sq.clone(), 1 << pool_log2.min(3), 4096).map_err(|e| format!("infra:ReadBufPool::new: {e}"))?;
+    let len = len as usize;
+    let pair = |ty: i32| -> Result<(OwnedFd, OwnedFd), String> {
+        let mut fds = [0i32; 2];
+        if unsafe { libc::socketpair(libc::AF_UNIX, ty | libc::SOCK_CLOEXEC, 0, fds.as_mut_ptr()) } != 0 {
+            return Err("infra:socketpair".into());
+        }
+        Ok(unsafe { (OwnedFd::from_raw_fd(fds[0]), OwnedFd::from_raw_fd(fds[1])) })
+    };
+    let ty = if dgram { libc::SOCK_DGRAM } else { libc::SOCK_STREAM };
+    let (sa, ra) = pair(ty)?;
+    let (sb, rb) = pair(ty)?;
+    let ra_raw = ra.as_raw_fd();
+    let ra = AsyncFd::new(ra, real.sq.clone());
+    let first = pattern(88, len);
+    let second = pattern(99, 7);
+    for s in [&sa, &sb] {
+        for m in [&first, &second] {
+            let n = unsafe { libc::send(s.as_raw_fd(), m.as_ptr().cast(), m.len(), libc::MSG_NOSIGNAL) };
+            if n != m.len() as isize {
+                return Err("infra:send".into());
+            }
+        }
+    }
+    // First receive into a pool buffer, with or without MSG_PEEK.
+    let f = ra.recv(pool.get());
+    let a = real.block_on_for(if peek { f.flags(RecvFlag::PEEK) } else { f }, 400).map_err(|e| format!("hang:recv(pool): {e}"))?;
+    let mut bb = vec![0u8; 4096];
+    let n = unsafe { libc::recv(rb.as_raw_fd(), bb.as_mut_ptr().cast(), bb.len(), if peek { libc::MSG_PEEK } else { 0 }) };
+    let what = if peek { "recv(pool buffer, PEEK)" } else { "recv(pool buffer)" };
+    same_outcome(what, &a.as_ref().map(|b| b.as_slice().to_vec()).map_err(|e| io::Error::from_raw_os_error(e.raw_os_error().unwrap_or(0))), &if n < 0 { Err(last_err()) } else { Ok(bb[..n as usize].to_vec()) })?;
+    drop(a);
+    let (x, y) = (unread(ra_raw), unread(rb.as_raw_fd()));
+    if x != y {
+        return Err(format!("unread-bytes:{what}: {x} unread bytes left on the socket after a10, {y} after recv(2)"));
+    }
+    // Everything that is left, again through pool buffers.
+    for round in 0..3 {
+        if unread(rb.as_raw_fd()) == 0 {
+            break;
+        }
+        let a = real.block_on_for(ra.recv(pool.get()), 400).map_err(|e| format!("hang:recv(pool) #{round}: {e}"))?;
+        let n = unsafe { libc::recv(rb.as_raw_fd(), bb.as_mut_ptr().cast(), bb.len(), 0) };
+        same_outcome("recv(pool buffer) after", &a.as_ref().map(|b| b.as_slice().to_vec()).map_err(|e| io::Error::from_raw_os_error(e.raw_os_error().unwrap_or(0))), &if n < 0 { Err(last_err()) } else { Ok(bb[..n as usize].to_vec()) })?;
+    }
+    if peek {
+        classes.push("peek");
+    }
+    classes.push("pool-buffer");
+    // A positional read into a pool buffer.
+    if let Some(off) = file_off {
+        let scratch = Scratch::new("poolfile");
+        let p = scratch.dir.join("f");
+        let content = pattern(12, 5000);
+        std::fs::write(&p, &content).map_err(|e| format!("infra:{e}"))?;
+        let fa = real.block_on(OpenOptions::new().read().open(real.sq.clone(), p.clone()))?.map_err(|e| format!("infra:open: {e}"))?;
+        let a = real.block_on(fa.read(pool.get()).from(off as u64))?;
+        let start = (off as usize).min(content.len());
+        let want = content[start..(start + 4096).min(content.len())].to_vec();
+        same_outcome("read(pool buffer).from(offset)", &a.as_ref().map(|b| b.as_slice().to_vec()).map_err(|e| io::Error::from_raw_os_error(e.raw_os_error().unwrap_or(0))), &Ok(want))?;
+        if off != 0 {
+            classes.push("offset");
+        }
+    }
     Ok(())
 }
